@@ -81,6 +81,29 @@ def is_parser_fn(F, callee):
     return False
 
 
+def is_parser_sig(F, callee):
+    """a parser in the sense of the contract: first argument a byte slice, result Result<(&[u8], T), ParseError>
+    (or an SmlParse / SmlParseTlf trait method, whatever the receiver)"""
+    tr = callee.get("trait")
+    if tr in ("parser::SmlParse", "parser::SmlParseTlf"):
+        return callee.get("method") in ("parse", "parse_with_tlf", "check_tlf")
+    r = callee.get("resolved") or callee
+    b = F.bodies.get(r["def"])
+    if b is None or b["arg_count"] < 1 or not b["span"]["file"].startswith("src/parser/"):
+        return False
+    if b.get("impl_trait") in ("parser::SmlParse", "parser::SmlParseTlf"):
+        return b.get("name") in ("parse", "parse_with_tlf", "check_tlf")
+    a0 = b["locals"][1]["ty"]
+    rt = b["locals"][0]["ty"]
+    if not (a0.get("k") == "ref" and a0["to"].get("k") == "slice"):
+        return False
+    if rt.get("k") == "adt" and rt["def"] == "std::result::Result":
+        ta = ty_args(rt)
+        return len(ta) == 2 and ta[0].get("k") == "tuple" and len(ta[0]["elems"]) == 2 and ta[0]["elems"][0].get("k") == "ref" \
+            and ta[0]["elems"][0]["to"].get("k") == "slice"
+    return False
+
+
 def ret_kind(F, callee, dest_ty):
     """'resty' for Result<(&[u8], T), ParseError>, 'bool', or None"""
     if dest_ty.get("k") == "bool":
@@ -100,7 +123,7 @@ class Extractor:
         F = self.F
 
         def f(callee):
-            if not is_parser_fn(F, callee):
+            if not is_parser_fn(F, callee) or not is_parser_sig(F, callee):
                 return False
             r = callee.get("resolved") or callee
             if r["def"] == self_def:
@@ -118,7 +141,7 @@ class Extractor:
                 k = ret_kind(F, callee_, dest_ty)
                 if k == "resty":
                     return suffix_parser_contract(ip, frame, bb, st, callee_, args, dest_ty)
-                if k == "bool":
+                if k == "bool" and name == "check_tlf":
                     s = st.fresh(0, 1, "check:" + name)
                     return [(st, VBool(("sym", s)))]
                 if b is not None:
@@ -137,7 +160,7 @@ class Extractor:
         ip.summarizable = None
         out = []
         try:
-            with Tracer(self.A, select=lambda key, callee: is_parser_fn(self.F, callee)):
+            with Tracer(self.A, select=lambda key, callee: is_parser_fn(self.F, callee) and is_parser_sig(self.F, callee)):
                 st = st or ip.new_state()
                 if args is None:
                     args = ip.fresh_args(body, env, st)
